@@ -45,7 +45,7 @@ TOL_SHARED = 1.0e-9   # same process tensor object in both runs: only float roun
 ULPS = 4
 EFFECT_MIN = 1.0e-3   # an ingredient whose un-shifted partner moves the result by less is "not exercised"
 
-TAUS = {"quick": [0.37, -1.3, 2.0, 1000.1], "thorough": [0.37, -1.3, 2.0, 1000.1, -0.6, 0.13]}
+TAUS = {"quick": [0.37, -1.3, 2.0, 1000.1, -20000.3], "thorough": [0.37, -1.3, 2.0, 1000.1, -20000.3, -0.6, 0.13]}
 T0S = {"quick": [0.0], "thorough": [0.0, 0.5]}
 
 SP = M.SM.conj().T
@@ -167,6 +167,8 @@ CONTROLS = {
     "pre-off-": [(3, -0.3, False, KICK1)],
     "first+last": [(0, 0.0, False, KICK1), (N_PT, 0.0, False, KICK2)],
     "post-first+pre-off+": [(0, 0.0, True, KICK2), (2, 0.3, False, KICK1)],
+    "pre-near-half+": [(1, 0.45, False, KICK1)],          # almost half way to the next step: must still act at step 1 only
+    "post-near-half-": [(3, -0.45, True, KICK2)],
 }
 
 
